@@ -322,8 +322,19 @@ fn run_case(c: &Value) -> Value {
         .unwrap_or_else(|| vec!["table".into(), "stream".into()]);
     let chain = c["chain"].as_bool().unwrap_or(true);
     let adjust = c["adjust"].as_bool().unwrap_or(true);
+    // allocations after build_outline are the allocator's business: at the numeric limit they are only made
+    // when the numbers left after the outline suffice for them
+    let nbook = if compact { c["n"].as_u64().unwrap_or(0) } else { c["adds"].as_array().map(|a| a.len() as u64).unwrap_or(0) };
+    let mut post_n = c["post"].as_u64().unwrap_or(0);
+    let mut link_new = c["link"].as_str() == Some("new");
+    if let Some(r) = room {
+        if (r as u64) < 1 + 2 * nbook + post_n + link_new as u64 {
+            post_n = 0;
+            link_new = false;
+        }
+    }
     let mut rec = json!({"np": np, "adjust": adjust, "style": style, "fmts": fmts, "chain": chain,
-                         "post": c["post"].as_u64().unwrap_or(0), "link": c["link"].as_str().unwrap_or("mut"),
+                         "post": post_n, "link": if link_new { "new" } else { "mut" },
                          "dests": dests, "room": room.map(|r| r as i64).unwrap_or(-1),
                          "stack_kb": st.kb, "small": st.small});
     let empty = vec![];
@@ -509,12 +520,12 @@ fn run_case(c: &Value) -> Value {
     let built = doc.objects.clone();
     let mut later: Vec<u32> = vec![];
     let post = guarded(|| {
-        for j in 0..c["post"].as_u64().unwrap_or(0) {
+        for j in 0..post_n {
             let id = if j % 2 == 0 { doc.add_object(Object::Integer(j as i64)) } else { doc.new_object_id() };
             later.push(if id.1 == 0 { wid(id.0) } else { BAD });
         }
         if let Some(r) = root {
-            if c["link"].as_str() == Some("new") {
+            if link_new {
                 match doc.catalog().map(|d| d.clone()) {
                     Ok(mut cat) => {
                         cat.set("Outlines", Object::Reference(r));
